@@ -94,6 +94,24 @@ def classify_build_failure(out: str) -> str:
 def run(ck: common.Check):
     t_start = time.time()
     budget = THOROUGH_BUDGET if ck.thorough else QUICK_BUDGET
+    n = ck.n
+
+    # ------------------------------------------------------------------ 0. the fixed corpus: first, complete, outside the budget
+    import c02_search as S
+    import c02_gen as G
+    workers = int(os.environ.get("C02_WORKERS", "10"))
+    have_interp = private_interp(ck)
+    corpus_jobs, corpus_results = [], []
+    uid = 0
+    for name, body in S.CORPUS.items():
+        corpus_jobs.append((uid, ck.rng.randrange(1 << 30), {"label": "corpus:" + name, "source": G.HEADER + body, "n_inputs": n(3, 6),
+                                                             "n_sched": 0, "annotate": False, "also_O0": n(0.3, 1.0), "deadline": None}))
+        uid += 1
+    if have_interp:
+        corpus_results = S.run_units(corpus_jobs, workers=workers, deadline=None, hard_after=1500)
+        ck.log("corpus: %d programs executed in %.0fs" % (len(corpus_results), time.time() - t_start))
+    t_corpus = time.time() - t_start
+    t_start = time.time()  # the adaptive budget covers what follows
 
     # ------------------------------------------------------------------ 1. translator + proofs
     gen_ok = ck.gen("Backend")
@@ -106,7 +124,6 @@ def run(ck: common.Check):
     import c02_corr as C
     work = common.scratch_dir("c02_corr_%d" % os.getpid())  # private: concurrent runs must not delete each other's shards
     cs = C.Cases(ck, ck.rng)
-    n = ck.n
     try:
         cs.simplify(n(300, 4000))
         cs.comp(n(250, 3000))
@@ -127,36 +144,22 @@ def run(ck: common.Check):
     t_corr = time.time() - t_start
 
     # ------------------------------------------------------------------ 3. main search: C vs reference semantics
-    import c02_search as S
-    import c02_gen as G
-    if not private_interp(ck):
+    if not have_interp:
         if shards is not None:
             C.finish_shards(ck, shards)
         return
-    workers = int(os.environ.get("C02_WORKERS", "10"))
     remaining = budget - (time.time() - t_start) - (45 if not ck.thorough else 120)
     # when a proof or a correspondence stream is broken the search is what produces the failing input: give it time
     deadline = time.time() + max(remaining, 150 if ck.broken else 75)
     n_inputs = n(3, 5)
-    corpus_jobs, gen_jobs = [], []
-    uid = 0
-    for name, body in S.CORPUS.items():
-        corpus_jobs.append((uid, ck.rng.randrange(1 << 30), {"label": "corpus:" + name, "source": G.HEADER + body, "n_inputs": n(3, 6),
-                                                             "n_sched": 0, "annotate": False, "also_O0": n(0.3, 1.0), "deadline": None}))
-        uid += 1
+    gen_jobs = []
     n_units = n(14, 2000)
     for k in range(n_units):
         gen_jobs.append((uid, ck.rng.randrange(1 << 30), {"label": "gen", "n_inputs": n_inputs, "n_sched": n(1, 2), "also_O0": 0.25,
                                                           "deadline": deadline, "unit_budget": 90}))
         uid += 1
-    # interleave so that corpus and generated programs both make progress before the deadline
-    jobs = []
-    for k in range(max(len(corpus_jobs), len(gen_jobs))):
-        if k < len(corpus_jobs):
-            jobs.append(corpus_jobs[k])
-        if k < len(gen_jobs):
-            jobs.append(gen_jobs[k])
-    results = S.run_units(jobs, workers=workers, deadline=deadline)
+    jobs = corpus_jobs + gen_jobs
+    results = corpus_results + S.run_units(gen_jobs, workers=workers, deadline=deadline)
     labels = {j[0]: j[2]["label"] for j in jobs}
 
     stats = {"units_submitted": len(jobs), "units_finished": 0, "units_rejected_by_frontend": 0, "variants": {},
@@ -286,12 +289,16 @@ def run(ck: common.Check):
         "divisors and moduli of index expressions are positive literals (wf_cir), as the type checker enforces",
         "the statement-level lowering (loops, calls, scalars by reference, context struct, casts, memories, names) is checked "
         "by execution of the real C against Core.Sem, not proved",
-        "data are small integers so that float arithmetic is exact; programs whose reference values leave the exactly "
-        "representable range, or whose mismatch disappears when float is replaced by double, are skipped and counted",
+        "comparison is precision-aware: integer-typed locations (i32 buffers / fields, index and bool fields) exactly; float "
+        "locations within the relative error of their DECLARED precision (f64 1e-12, f32 1e-5, f16 1e-2; not finer than the "
+        "coarsest float precision taking part in the program, except configuration fields only ever written with literals), "
+        "relative to max(|reference|, largest value of the block); the reference value is the exact rational of Core.Sem. "
+        "Skipped and counted: values beyond 2^30 in i32 programs / 2^100, a non-integer reference value in an integer "
+        "location (Core.Sem has no truncation), an f32 mismatch that disappears when float is replaced by double",
         "gcc build failures of the three classes listed in harness/c02_invalid_c_findings.md are deferred to C15 and counted "
         "in coverage.c_build_failures_deferred_to_C15; any other build failure is a violation",
     ]
     # Print Assumptions of every theorem is part of Props_C02.v; coq_build has collected it from the build log
     shutil.rmtree(common.SCRATCH / "c02" / ("run%d" % os.getpid()), ignore_errors=True)
     shutil.rmtree(work, ignore_errors=True)
-    ck.log("timing: build + real side of the correspondence %.0fs, total %.0fs" % (t_corr, time.time() - t_start))
+    ck.log("timing: corpus %.0fs, then build + real side of the correspondence %.0fs, total %.0fs" % (t_corpus, t_corr, t_corpus + time.time() - t_start))
